@@ -35,6 +35,7 @@ type Frame struct {
 	env      []Value
 	defers   []deferred
 	discard  bool // result not delivered to a caller register (defers, init)
+	injected bool // pushed by the engine between two instructions (interleaving hook): returning changes nothing
 	inDefers bool // the frame is executing its RunDefers instruction
 }
 
@@ -78,6 +79,8 @@ type State struct {
 	aux    map[string]int // misc per-path counters
 	budget int
 	deadline int
+	inject  *FuncV // callback to run before the next instruction
+	onUnlock *FuncV
 }
 
 type Access struct {
@@ -121,6 +124,8 @@ type Engine struct {
 	asserts   map[string]*AssertStat
 	traceOn   bool
 	symPtrs   bool
+	sharedMax int
+	lockset   map[[2]int]*lockSet
 	prefix    []int
 	qprof     map[string]int
 	mergeOK   map[siteKey]int
@@ -170,7 +175,7 @@ func (st *State) top() *Frame { return st.frames[len(st.frames)-1] }
 func (e *Engine) newEpoch() int { e.nextEpoch++; return e.nextEpoch }
 
 func (e *Engine) clone(st *State) *State {
-	n := &State{pc: append([]*Term(nil), st.pc...), steps: st.steps, nd: append([]ndVar(nil), st.nd...), budget: st.budget, deadline: st.deadline}
+	n := &State{pc: append([]*Term(nil), st.pc...), steps: st.steps, nd: append([]ndVar(nil), st.nd...), budget: st.budget, deadline: st.deadline, inject: st.inject, onUnlock: st.onUnlock}
 	n.known = make(map[int]bool, len(st.known))
 	for k := range st.known {
 		n.known[k] = true
@@ -362,14 +367,58 @@ func (e *Engine) store(st *State, p Ptr, t types.Type, v Value) {
 }
 
 func (e *Engine) logAccess(st *State, p Ptr, n int, w bool) {
-	if len(st.frames) == 0 {
+	if len(st.frames) == 0 || st.aux["rec"] != 1 || p.Obj > e.sharedMax || p.Obj == 0 {
 		return
 	}
-	held := ""
-	for _, h := range st.held {
-		held += fmt.Sprintf("%d+%d;", h.Obj, h.Off)
+	fn := st.top().fn.String()
+	if strings.Contains(fn, "VerifHarness") || strings.Contains(fn, "zz_verif") || strings.Contains(st.top().fn.Name(), "vHarness") {
+		return // the harness's own observations are not part of the component
 	}
-	st.acc = append(st.acc, Access{Obj: p.Obj, Off: p.Off, Write: w, Site: e.site(st), Held: held})
+	site := e.site(st)
+	for c := 0; c < n; c++ {
+		key := [2]int{p.Obj, p.Off + c}
+		ls := e.lockset[key]
+		if ls == nil {
+			ls = &lockSet{}
+			e.lockset[key] = ls
+		}
+		cur := map[[2]int]bool{}
+		for _, h := range st.held {
+			if h.Off >= 0 {
+				cur[[2]int{h.Obj, h.Off}] = true // write-mode lock
+			} else if !w {
+				cur[[2]int{h.Obj, -h.Off - 1}] = true // read-mode lock protects reads only
+			}
+		}
+		if !ls.init {
+			ls.init = true
+			ls.cands = cur
+		} else {
+			for k := range ls.cands {
+				if !cur[k] {
+					delete(ls.cands, k)
+				}
+			}
+		}
+		ls.n++
+		if w {
+			ls.writes++
+			if ls.wsite == "" || len(cur) == 0 {
+				ls.wsite = site
+			}
+		} else if ls.rsite == "" || len(cur) == 0 {
+			ls.rsite = site
+		}
+	}
+}
+
+type lockSet struct {
+	init   bool
+	cands  map[[2]int]bool
+	n      int
+	writes int
+	wsite  string
+	rsite  string
 }
 
 // ---------- outcomes / signals ----------
@@ -839,6 +888,13 @@ func (e *Engine) jump(fr *Frame, to *ssa.BasicBlock) {
 }
 
 func (e *Engine) step(st *State) {
+	if st.inject != nil {
+		cb := st.inject
+		st.inject = nil
+		e.pushFrame(st, cb.Fn, nil, cb.Env, false)
+		st.top().injected = true
+		return
+	}
 	fr := st.top()
 	in := fr.block.Instrs[fr.ip]
 	st.steps++
@@ -1277,6 +1333,10 @@ func (e *Engine) returnOp(st *State, fr *Frame, x *ssa.Return) {
 		res = t
 	}
 	discard := fr.discard
+	if fr.injected {
+		st.frames = st.frames[:len(st.frames)-1]
+		return
+	}
 	st.frames = st.frames[:len(st.frames)-1]
 	if len(st.frames) == 0 {
 		panic(pathEnd{&Outcome{Kind: "return", pc: st.pc, nd: st.nd}})
